@@ -217,6 +217,36 @@ Theorem mu_exponential_form_sol :
     sol_at fi mu (Fn1 F_LOG T) (Fn1 F_EXP (Add (Sym mu) (Sym eta))) (Mul T (Fn1 F_EXP (Sym eta))) r.
 Proof. exact exponential_sol. Qed.
 
+(* convert_model to generic and back to NONMEM passes statements, parameters, random variables and dependent
+   variables on unchanged (Model.convert_generic / convert_nonmem mirror the two constructors; that update_source
+   does not touch them is what the correspondence checks), so the model function is the same: every model,
+   interpretation, solver oracle, environment, symbol. *)
+Theorem convert_roundtrip_identity : forall (m : pmodel), convert_nonmem (convert_generic m) = m.
+Proof. exact convert_roundtrip_id. Qed.
+
+Theorem convert_roundtrip_preserves :
+  forall (fi : finterp) (ode : id -> list (option Q) -> option Q) (m : pmodel) (r : env) (x : id),
+    sexec fi ode r (pm_stmts (convert_nonmem (convert_generic m))) x = sexec fi ode r (pm_stmts m) x.
+Proof. exact convert_roundtrip_lemma. Qed.
+
+(* split_joint_distribution changes only the random variables (unjoin) and drops parameters: the structural
+   model function (statements, dependent variables) is unchanged, no parameter is invented, and a parameter is
+   dropped only if the random variables mentioned it before and do not mention it any more. *)
+Theorem split_joint_preserves_function :
+  forall (fi : finterp) (ode : id -> list (option Q) -> option Q) (inds : list id) (m : pmodel) (r : env) (x : id),
+    sexec fi ode r (pm_stmts (split_joint inds m)) x = sexec fi ode r (pm_stmts m) x /\
+    pm_dvs (split_joint inds m) = pm_dvs m.
+Proof. intros. split; reflexivity. Qed.
+
+Theorem split_joint_parameters :
+  forall (inds : list id) (m : pmodel) (p : id * Q * bool),
+    (In p (pm_params (split_joint inds m)) -> In p (pm_params m)) /\
+    (In p (pm_params m) ->
+     (In (fst (fst p)) (flat_map rdist_params (unjoin inds (pm_rvs m))) \/
+      ~ In (fst (fst p)) (flat_map rdist_params (pm_rvs m))) ->
+     In p (pm_params (split_joint inds m))).
+Proof. intros. split; [apply split_joint_params_sub | apply split_joint_params_kept]. Qed.
+
 (* the statement type of this model extends Base.Stmts: same semantics on embedded programs *)
 Theorem sexec_embeds_base :
   forall (fi : finterp) (ode : id -> list (option Q) -> option Q) (l : list stmt) (r : env),
